@@ -19,6 +19,129 @@ type syncWalker struct {
 	toks []string
 }
 
+// localNames gives every local variable that is bound exactly once a name that does not depend on how it is spelled:
+// the call or value it is bound to ("(time.NewTicker)", "($r.Dialer.DialContext#0)" for the first result of a call
+// with several), "(var sync.Mutex)" for a variable declared without a value and never assigned, "(rangekey X)" for a
+// range variable. Parameters and the receiver are $0.. and $r already. Variables assigned more than once keep
+// their spelling.
+func localNames(fd *ast.FuncDecl, c *canon) {
+	assigned := map[string]int{}
+	desc := map[string]func() string{}
+	bind := func(id *ast.Ident, d func() string) {
+		if id == nil || id.Name == "_" {
+			return
+		}
+		if _, isParam := c.params[id.Name]; isParam {
+			if c.params[id.Name][0] == '$' {
+				return
+			}
+		}
+		assigned[id.Name]++
+		desc[id.Name] = d
+	}
+	callee := func(e ast.Expr) (string, bool) {
+		switch x := e.(type) {
+		case *ast.CallExpr:
+			if _, lit := x.Fun.(*ast.FuncLit); lit {
+				return "", false
+			}
+			return c.str(x.Fun, 9), true
+		case *ast.TypeAssertExpr:
+			if x.Type != nil {
+				return "assert " + exprString(x.Type), true
+			}
+		}
+		return "", false
+	}
+	ast.Inspect(fd.Body, func(n ast.Node) bool {
+		switch x := n.(type) {
+		case *ast.AssignStmt:
+			if x.Tok != token.DEFINE && x.Tok != token.ASSIGN {
+				for _, l := range x.Lhs {
+					if id, ok := l.(*ast.Ident); ok {
+						assigned[id.Name] += 2
+					}
+				}
+				return true
+			}
+			for i, l := range x.Lhs {
+				id, ok := l.(*ast.Ident)
+				if !ok {
+					continue
+				}
+				switch {
+				case len(x.Rhs) == 1 && len(x.Lhs) > 1:
+					rhs, i := x.Rhs[0], i
+					bind(id, func() string {
+						if f, ok := callee(rhs); ok {
+							return fmt.Sprintf("(%s#%d)", f, i)
+						}
+						return ""
+					})
+				case len(x.Rhs) == len(x.Lhs):
+					rhs := x.Rhs[i]
+					bind(id, func() string {
+						if f, ok := callee(rhs); ok {
+							return "(" + f + ")"
+						}
+						if _, isLit := rhs.(*ast.CompositeLit); isLit {
+							return "(val " + exprString(rhs) + ")"
+						}
+						return ""
+					})
+				}
+			}
+		case *ast.ValueSpec:
+			for i, nm := range x.Names {
+				switch {
+				case len(x.Values) == 0 && x.Type != nil:
+					ty := exprString(x.Type)
+					assigned[nm.Name] += 0
+					if _, seen := desc[nm.Name]; !seen {
+						desc[nm.Name] = func() string { return "(var " + ty + ")" }
+					}
+				case i < len(x.Values):
+					v := x.Values[i]
+					bind(nm, func() string {
+						if f, ok := callee(v); ok {
+							return "(" + f + ")"
+						}
+						return "(val " + exprString(v) + ")"
+					})
+				}
+			}
+		case *ast.RangeStmt:
+			xs := x.X
+			if id, ok := x.Key.(*ast.Ident); ok && x.Tok == token.DEFINE {
+				bind(id, func() string { return "(rangekey " + c.str(xs, 9) + ")" })
+			}
+			if id, ok := x.Value.(*ast.Ident); ok && x.Tok == token.DEFINE {
+				bind(id, func() string { return "(rangeval " + c.str(xs, 9) + ")" })
+			}
+		case *ast.IncDecStmt:
+			if id, ok := x.X.(*ast.Ident); ok {
+				// counting does not rebind: the variable keeps the name of its declaration
+				_ = id
+			}
+		}
+		return true
+	})
+	// resolve in two rounds so that a descriptor may mention an already named local
+	for round := 0; round < 2; round++ {
+		for name, d := range desc {
+			if assigned[name] > 1 {
+				continue
+			}
+			if _, isParam := c.params[name]; isParam && round == 0 {
+				continue
+			}
+			if s := d(); s != "" {
+				c.params[name] = s
+			}
+		}
+	}
+}
+
 // calls that are not part of the skeleton
 var syncNoise = map[string]bool{
 	"$r.logf": true, "append": true, "len": true, "errors.New": true, "cap": true, "copy": true, "make": true, "new": true,
@@ -83,6 +206,8 @@ func (w *syncWalker) expr(e ast.Expr) {
 	case *ast.IndexExpr:
 		w.expr(x.X)
 		w.expr(x.Index)
+		// a read of an element (of a map, for the lockset check; slices and arrays of locals show up too)
+		w.emit("index:" + w.c.str(x.X, 9))
 	case *ast.SliceExpr:
 		w.expr(x.X)
 		w.expr(x.Low)
@@ -285,7 +410,8 @@ func emitSync(out *bytes.Buffer, pi *pkgInfo, names []string) {
 				continue
 			}
 			w := &syncWalker{c: newCanon(fd)}
-			w.c.defs = map[string]ast.Expr{} // names as written
+			w.c.defs = map[string]ast.Expr{}
+			localNames(fd, w.c)
 			w.block(fd.Body)
 			var qs []string
 			for _, t := range w.toks {
